@@ -88,6 +88,7 @@ import CkbVerif.Lemmas.PoolDerived
 import CkbVerif.Lemmas.PoolRbf
 import CkbVerif.Lemmas.PoolHdeps
 import CkbVerif.Lemmas.PoolEvict
+import CkbVerif.Lemmas.PoolF33
 namespace CkbVerif.C11
 open CkbVerif.Pool
 
@@ -1262,6 +1263,65 @@ theorem evicted_input_parent_orphan_witness :
     getEntry (submit s txOT .pending 3).1 101 = none ∧ 101 ∉ (submit s txOT .pending 3).1.chain ∧
     parentsOf (submit s txOT .pending 3).1.links 102 = [] ∧ ancOf (submit s txOT .pending 3).1 102 = some ⟨1, 294, 537, 4000⟩ ∧
     (submit s txOT .pending 3).1.ghostBad = false ∧ aggOK (submit s txOT .pending 3).1 = true := by
+  decide +kernel
+
+/-! ### the repaired ancestor-limit eviction (/repo 10e306f, F33; `Cfg.fixF33`, the code of /repo) -/
+
+/-- The witness above is a statement about `check_and_record_ancestors` as it was BEFORE /repo 10e306f
+    (`fixF33 = false`).  In the repaired code the candidates of the ancestor-limit eviction exclude every
+    pooled transaction whose output the new entry spends or references, in every state: -/
+theorem eviction_candidates_exclude_needed_parents (s : Pool) (t : Tx) (h33 : s.cfg.fixF33 = true) :
+    ∀ c ∈ evictCands s t, c ∉ neededIds t := by
+  intro c hc
+  unfold evictCands at hc
+  obtain ⟨x, hx, rfl⟩ := List.mem_map.mp hc
+  exact cellRef_not_needed s t h33 _ (by simpa using (List.mem_filter.mp hx).2)
+
+/-- Repaired code (`fixF33`, `fixPanic`: /repo 10e306f and b7267ec), every state with consistent links (every
+    reachable state: `links_ok_reachable`), every transaction: when `add_entry` admits `t`, none of the evicted
+    transactions is a pooled creator of an out-point `t` spends or references — neither as a candidate (excluded
+    up front) nor as a descendant of an evicted candidate (then the post-eviction parent check refuses `t`) —,
+    and every such creator is still pooled afterwards: an admitted entry never loses an input parent inside
+    `add_entry`. -/
+theorem repaired_add_entry_keeps_input_parents (s : Pool) (hL : LinksOK s) (t : Tx) (st : Status) (ts : Nat)
+    (s2 : Pool) (ev : List Nat) (h33 : s.cfg.fixF33 = true) (hP : s.cfg.fixPanic = true)
+    (hadd : addEntry s t st ts = (s2, .ok ev)) :
+    ∀ p ∈ neededIds t, (getEntry s p).isSome → p ∉ ev ∧ ∃ x ∈ txs s2, x.id = p := by
+  intro p hn hp
+  have hmem := (mem_idsOf_iff s p).mpr hp
+  rw [idsOf_eq_txs] at hmem
+  obtain ⟨x, hx, hxp⟩ := List.mem_map.mp hmem
+  have hkey : hasLink s.links p = true := by
+    have := (pooled_iff_key hL p).mpr ⟨x, hx, hxp⟩
+    unfold hasLink keys at *
+    simp only [List.any_eq_true, decide_eq_true_eq, List.mem_map] at this ⊢
+    obtain ⟨kl, a, b⟩ := this
+    exact ⟨kl, a, b⟩
+  have hnot := addEntry_keeps_needed s t st ts s2 ev h33 hP hadd p hn hkey
+  refine ⟨hnot, x, ?_, hxp⟩
+  rw [(addEntry_txs_exact s t st ts s2 ev hadd).2.2]
+  exact List.mem_append.mpr (Or.inl (List.mem_filter.mpr ⟨hx, by simpa [hxp] using hnot⟩))
+
+/-- the history of `evicted_input_parent_orphan_witness` on the repaired code (replayed on the real node by
+    corpus/C11/node-evicted-cell-ref-parent-is-input-parent.ops): P is no candidate, the limit cannot be met,
+    T is refused with `ExceededMaximumAncestorsCount` and the pool is unchanged.  Non-vacuity of the two
+    theorems above: a reachable state over the limit with a needed cell-ref parent. -/
+theorem evicted_input_parent_repaired :
+    let s := run (empty { cfg0 with maxAnc := 2, fixF2 := true, fixPanic := true, fixF33 := true } [0, 1, 2, 3, 4])
+      [.submit txOQ .pending 1, .submit txOP .pending 2]
+    s.entries.map (·.tx.id) = [100, 101] ∧ 101 ∈ neededIds txOT ∧ evictCands s txOT = [] ∧
+    (match (submit s txOT .pending 3).2 with | .ok _ _ _ => 0 | .add .rejAnc => 1 | _ => 2) = 1 ∧
+    (submit s txOT .pending 3).1.entries.map (·.tx.id) = [100, 101] := by
+  decide +kernel
+
+/-- non-vacuity of `repaired_add_entry_keeps_input_parents` with a real eviction on the repaired code:
+    Q(19) <- P(20, cell dep on the chain cell 0:2); T(31) consumes 0:2 and is over the limit of 2 only through the
+    cell-ref parent P, whose outputs T does not use: P is a candidate, is evicted, and T is admitted. -/
+example :
+    let s := run (empty { evCfg with fixF2 := true, fixPanic := true, fixF33 := true } [0]) [.add evQ .pending 1, .add evP .pending 2]
+    let t : Tx := { id := 31, inputs := [⟨0, 2⟩], deps := [], hdeps := [], nout := 1, size := 100, cycles := 0, fee := 300 }
+    s.cfg.fixF33 = true ∧ s.cfg.fixPanic = true ∧ neededIds t = [0] ∧ evictCands s t = [20] ∧
+    (addEntry s t .pending 9).2 = .ok [20] ∧ idsOf (addEntry s t .pending 9).1.entries = [19, 31] := by
   decide +kernel
 
 end CkbVerif.C11
